@@ -307,21 +307,28 @@ impl RootHeader {
                 padding,
             } => {
                 writer.write_all(&magic.to_bytes())?;
-                if magic.is_little_endian() {
+                let padding_bytes = if magic.is_little_endian() {
                     writer.write_all(&header_size.to_le_bytes())?;
                     writer.write_all(&version.to_le_bytes())?;
                     info.write_le(writer)?;
-                    // Only write padding if header_size exceeds the base 20 bytes
-                    if *header_size > 20 {
-                        writer.write_all(&padding.to_le_bytes())?;
-                    }
+                    padding.to_le_bytes()
                 } else {
                     writer.write_all(&header_size.to_be_bytes())?;
                     writer.write_all(&version.to_be_bytes())?;
                     info.write_be(writer)?;
-                    if *header_size > 20 {
-                        writer.write_all(&padding.to_be_bytes())?;
-                    }
+                    padding.to_be_bytes()
+                };
+                // Bytes beyond the base 20 up to header_size, exactly as `read`
+                // consumes them: the first padding word when at least 4 bytes
+                // follow, zeros for the rest (the blocks start at header_size,
+                // so writing a fixed 4 bytes shifted them for any header_size
+                // other than 24).
+                let extra = header_size.saturating_sub(20) as usize;
+                if extra >= 4 {
+                    writer.write_all(&padding_bytes)?;
+                    writer.write_all(&vec![0u8; extra - 4])?;
+                } else {
+                    writer.write_all(&vec![0u8; extra])?;
                 }
             }
         }
